@@ -29,7 +29,7 @@ RULE = ("Part 1 (finite, complete): the serialised automata are extracted from s
 ASSUMPTIONS = ["the C++ lexer/parser cannot be executed here (no ANTLR C++ runtime): for the C++ target the claim is the complete "
                "artefact identity of part 1 (its automaton is word for word the one exercised through the Python target)",
                "reference lexer / Earley recogniser implement ANTLR's documented lexer semantics and CFG language"]
-BUDGET = {"quick": (10000, 4), "thorough": (640000, 16)}
+BUDGET = {"quick": (8000, 4), "thorough": (640000, 16)}
 
 PY = os.path.join(ref.REPO, "blackbird_python", "blackbird")
 CPP = os.path.join(ref.REPO, "blackbird_cpp")
@@ -393,11 +393,98 @@ def _check_sentence(names):
     return names, ok, got, errs
 
 
+_BASE_SENTENCES = [
+    # one full script touching every parser rule (token names)
+    "PROGNAME NAME NEWLINE VERSION FLOAT NEWLINE TARGET DEVICE LBRAC NAME ASSIGN INT COMMA NAME ASSIGN LSQBRAC STR COMMA BOOL RSQBRAC RBRAC NEWLINE "
+    "PROGTYPE NAME LBRAC NAME ASSIGN INT RBRAC NEWLINE INCLUDE STR NEWLINE "
+    "TYPE_FLOAT NAME ASSIGN MINUS FLOAT PWR INT TIMES LBRAC PI PLUS NAME LSQBRAC INT RSQBRAC RBRAC NEWLINE "
+    "TYPE_COMPLEX TYPE_ARRAY NAME LSQBRAC INT COMMA INT RSQBRAC ASSIGN NEWLINE TAB COMPLEX COMMA LBRACE NAME RBRACE NEWLINE "
+    "NAME LBRAC SIN LBRAC REGREF RBRAC COMMA NAME ASSIGN NAME RBRAC APPLY LSQBRAC INT COMMA INT RSQBRAC NEWLINE "
+    "MEASURE APPLY INT NEWLINE "
+    "FOR TYPE_INT NAME IN INT COLON INT COLON INT NEWLINE TAB NAME APPLY NAME NEWLINE TAB MEASURE LBRAC RBRAC APPLY LBRAC NAME RBRAC NEWLINE "
+    "FOR TYPE_STR NAME IN LSQBRAC STR COMMA STR RSQBRAC NEWLINE TAB NAME LBRAC NAME RBRAC APPLY INT NEWLINE",
+    "NEWLINE PROGNAME NAME NEWLINE NEWLINE VERSION FLOAT NEWLINE NAME APPLY INT",
+]
+
+
+def _edit_sequences(tier):
+    """Every single-token deletion, substitution and insertion (over the whole token alphabet) of the base sentences."""
+    g = ref.grammar()
+    names = list(g.token_names)
+    for base in _BASE_SENTENCES:
+        toks = base.split()
+        yield toks
+        for i in range(len(toks)):
+            yield toks[:i] + toks[i + 1:]
+            for n in names:
+                if n != toks[i]:
+                    yield toks[:i] + [n] + toks[i + 1:]
+            if tier != "quick" or i % 3 == 0:
+                for n in names:
+                    yield toks[:i] + [n] + toks[i:]
+
+
+def _check_edit(names):
+    ok, k = ref.cfg().recognise(list(names) + ["EOF"])
+    got, errs = shipped_parser_verdict(list(names))
+    return names, ok, got, errs, k
+
+
+def _codepoint_chunk(pts):
+    bad = []
+    n = 0
+    lx = ref.lexer()
+    for cp in pts:
+        ch = chr(cp)
+        for text in ("x" + ch + "y", ch, "1" + ch + " 2"):
+            n += 1
+            want = [(t.type, t.text if t.type != -1 else "<EOF>", t.start, t.stop, t.line, t.col) for t in lx.tokens(text)]
+            got = ref.shipped_tokens(text)
+            if got != want and len(bad) < 3:
+                bad.append((text, got, want))
+    return n, bad
+
+
+def _lexer_codepoints(tier, pool):
+    """Every code point of the BMP (quick: 0..0x2FFF densely plus every 13th above) in the contexts 'x<c>y', '<c>' and
+    '1<c> 2': the shipped lexer must tokenise exactly like the grammar (whitespace look-alikes, controls, non-ASCII letters)."""
+    pts = list(range(0, 0x3000)) + list(range(0x3000, 0x10000, 1 if tier != "quick" else 13)) + [0x1F600, 0x10FFFF, 0xE0001]
+    pts = [c for c in pts if not 0xD800 <= c <= 0xDFFF]
+    chunks = [pts[i::32] for i in range(32)]
+    n, bad = 0, []
+    for cn, cb in pool.imap_unordered(_codepoint_chunk, chunks):
+        n += cn
+        bad.extend(cb)
+    return n, bad[:3]
+
+
+def _check_edit_chunk(seqs):
+    return [_check_edit(sq) for sq in seqs]
+
+
 def extra(tier, seed):
     finds, compared = artefact_findings()
     buckets = {}
     for b, d in finds:
         buckets.setdefault(b, {"detail": d, "case": {"part": "artefact", "bucket": b}, "size": 0})
+    # --- exhaustive single-token edits of base sentences (parser) and single code points (lexer)
+    n_edits = 0
+    g = ref.grammar()
+    pool = multiprocessing.get_context("fork").Pool(min(16, os.cpu_count() or 1))
+    seqs = list(_edit_sequences(tier))
+    edit_results = [r for chunk in pool.imap_unordered(_check_edit_chunk, [seqs[i::64] for i in range(64)]) for r in chunk]
+    for names, ok, got, errs, k in edit_results:
+        n_edits += 1
+        if got != ok:
+            b = "parser|verdict|%s" % ("accepts-non-sentence" if got else "rejects-sentence")
+            buckets.setdefault(b, {"detail": "shipped parser %s, grammar %s (first non-viable token index %r; parser error %r)\ntokens: %s" % (
+                "accepts" if got else "rejects", "accepts" if ok else "rejects", k, errs, " ".join(names)),
+                "case": {"part": "parser", "kind": "edit", "names": list(names)}, "size": len(names)})
+    n_chars, bad = _lexer_codepoints(tier, pool)
+    for text, got, want in bad:
+        b = "lexer|token-mismatch|single-code-point"
+        buckets.setdefault(b, {"detail": "shipped lexer %r, grammar prescribes %r\ntext: %r (U+%04X)" % (got, want, text, ord(text[1]) if len(text) > 1 else ord(text[0])),
+                               "case": {"part": "lexer", "text": text}, "size": len(text)})
     max_len, cap = (5, 4000) if tier == "quick" else (7, 3000000)
     sents = sentences_upto(max_len, cap)
     complete = len(sents) <= cap
@@ -406,11 +493,7 @@ def extra(tier, seed):
         sents = sents[::max(1, len(sents) // 2500)]
         complete = False
     bad = 0
-    if tier == "quick":
-        results = map(_check_sentence, sents)
-    else:
-        pool = multiprocessing.get_context("fork").Pool(min(16, os.cpu_count() or 1))
-        results = pool.imap_unordered(_check_sentence, sents, chunksize=200)
+    results = pool.imap_unordered(_check_sentence, sents, chunksize=200)
     n = 0
     for names, ok, got, errs in results:
         n += 1
@@ -421,10 +504,11 @@ def extra(tier, seed):
             b = "parser|enumerated-sentence-rejected"
             buckets.setdefault(b, {"detail": "shipped parser rejects the sentence %s (%r)" % (" ".join(names), errs),
                                    "case": {"part": "parser", "kind": "enumerated", "names": ["PROGNAME", "NAME", "NEWLINE", "VERSION", "FLOAT", "NEWLINE"] + list(names)}, "size": len(names)})
-    if tier != "quick":
-        pool.close()
-    return {"buckets": buckets, "evaluations": n,
+    pool.close()
+    pool.join()
+    return {"buckets": buckets, "evaluations": n + n_edits + n_chars,
             "coverage": {"artefact_items_compared": compared, "artefact_comparison_exhaustive": True,
+                         "single_token_edits_of_base_sentences": n_edits, "single_code_point_lexer_strings": n_chars,
                          "enumerated_sentences": n, "enumerated_sentence_max_len": max_len, "enumeration_complete_for_bound": complete}}
 
 
